@@ -65,7 +65,8 @@ theorem world_eta (w : World) : ({ ro := w.ro, wl := w.wl, br := w.br, net := w.
 /-- a workload whose status lags behind its spec: the reconcile waits and writes nothing -/
 theorem reconcile_wait (w : World) (wl : WL) (hg : RoGood w.ro) (hwl : w.wl = some wl) (hc : wl.consistent = false) :
     reconcile w = .val { w := w, roGone := false, requeue := true, err := false, writes := [] } := by
-  unfold reconcile
+  rw [reconcile_eq_core_of_alive w hg.notDeleting hg.enabled]
+  unfold reconcileCore
   simp only [hf_good w.ro hg, hwl]
   unfold calculateStatus
   simp [hg.notDeleting, hc]
@@ -83,14 +84,16 @@ theorem cs_good' (ro : Rollout) (wl : WL) (hg : RoGood ro) (hc : wl.consistent =
 theorem reconcile_healthy (w : World) (wl : WL) (hg : RoGood w.ro) (hwl : w.wl = some wl) (hc : wl.consistent = true)
     (hph : w.ro.phase = .healthy) :
     reconcile w = .val { w := { w with ro := csPhase w.ro (csObserve w.ro wl) wl }, roGone := false, requeue := false, err := false, writes := [] } := by
-  unfold reconcile
+  rw [reconcile_eq_core_of_alive w hg.notDeleting hg.enabled]
+  unfold reconcileCore
   simp only [hf_good w.ro hg, hwl, cs_good' w.ro wl hg hc (by rw [hph]; decide), hph]
 
 /-- Completed: back to Healthy -/
 theorem reconcile_completed (w : World) (wl : WL) (hg : RoGood w.ro) (hwl : w.wl = some wl) (hc : wl.consistent = true)
     (hph : w.ro.phase = .progressing) (hr : w.ro.reason = .completed) :
     reconcile w = .val { w := { w with ro := { csObserve w.ro wl with phase := .healthy } }, roGone := false, requeue := false, err := false, writes := [] } := by
-  unfold reconcile
+  rw [reconcile_eq_core_of_alive w hg.notDeleting hg.enabled]
+  unfold reconcileCore
   dsimp only
   rw [hf_good w.ro hg]
   dsimp only
@@ -114,7 +117,8 @@ theorem reconcile_initializing (w : World) (wl : WL) (hg : RoGood w.ro) (hwl : w
     reconcile w = .val { w := { w with ro := { csObserve w.ro wl with sub := some (initSub w.ro wl), reason := .inRolling } }, roGone := false, requeue := false, err := false, writes := [] } := by
   have hst : (csObserve w.ro wl).steps = w.ro.steps := (csObserve_same w.ro wl).1.1
   have hne : (csObserve w.ro wl).steps.isEmpty = false := by rw [hst]; simpa using hg.steps
-  unfold reconcile
+  rw [reconcile_eq_core_of_alive w hg.notDeleting hg.enabled]
+  unfold reconcileCore
   dsimp only
   rw [hf_good w.ro hg]
   dsimp only
